@@ -2,13 +2,189 @@ package main
 
 import (
 	"os"
+	"time"
 
 	"verif/harness/sim"
+
+	sdk "github.com/pokt-network/posmint/types"
+	posTypes "github.com/pokt-network/posmint/x/pos/types"
 )
 
 func osGetenv(k string) string { return os.Getenv(k) }
 
-// scenarioFor returns a deterministic script for some case indices (coverage guarantees), nil otherwise.
-func scenarioFor(prop string, i int, r *sim.Rand) func(w *sim.World) {
+// Scenario scripts steer the random walk through sequences that need several specific steps in a row.
+// They only *queue* transactions / votes / time steps; everything else in those blocks stays random,
+// and all judging is done by the same monitors.
+
+func stakeTx(w *sim.World, a *sim.Actor, amt int64) func() *sim.TxSpec {
+	return func() *sim.TxSpec { return w.Honest(a, posTypes.MsgStake{PubKey: a.Pub, Value: sdk.NewInt(amt)}) }
+}
+func unstakeTx(w *sim.World, a *sim.Actor) func() *sim.TxSpec {
+	return func() *sim.TxSpec { return w.Honest(a, posTypes.MsgBeginUnstake{Address: a.Addr}) }
+}
+func unjailTx(w *sim.World, a *sim.Actor) func() *sim.TxSpec {
+	return func() *sim.TxSpec { return w.Honest(a, posTypes.MsgUnjail{ValidatorAddr: a.Addr}) }
+}
+
+func val(w *sim.World, a *sim.Actor) *sim.ValView { return w.View().Vals[a.AddrHex()] }
+
+// freeActor picks an ed25519 actor that is not a validator, not the anchor and not a governance key.
+func freeActor(w *sim.World, skip int) *sim.Actor {
+	for i := 1; i < len(w.Eds)-2; i++ {
+		a := w.Eds[i]
+		if _, ok := w.View().Vals[a.AddrHex()]; !ok {
+			if skip == 0 {
+				return a
+			}
+			skip--
+		}
+	}
 	return nil
+}
+
+// scJailRestakeUnjail: stake exactly the minimum -> miss every vote until jailed (the downtime slash drops the
+// stake below the minimum: forced unstake while jailed) -> stake again -> unjail one second early, on time, late.
+func scJailRestakeUnjail(w *sim.World) {
+	v := freeActor(w, 0)
+	if v == nil {
+		w.Run()
+		return
+	}
+	cp := sim.ParamsOf(w.View())
+	w.Reserved[v.AddrHex()] = true
+	defer delete(w.Reserved, v.AddrHex())
+	w.Force("stake-min", stakeTx(w, v, cp.Min))
+	if !w.Block() {
+		return
+	}
+	w.MissOverride[v.AddrHex()] = 100
+	var jailTime time.Time
+	for i := int64(0); i < cp.Window+8; i++ {
+		w.Step(1 + int64(i%3))
+		if !w.Block() {
+			return
+		}
+		if x := val(w, v); x != nil && x.Jailed {
+			jailTime = w.Now
+			break
+		}
+	}
+	delete(w.MissOverride, v.AddrHex())
+	x := val(w, v)
+	if x == nil || !x.Jailed {
+		w.Run()
+		return
+	}
+	if x.Status == 0 {
+		w.Force("restake-while-jailed", stakeTx(w, v, cp.Min))
+		w.Step(1)
+		if !w.Block() {
+			return
+		}
+	}
+	// immediately (too early), one second early, exactly on time, one second late
+	w.Force("unjail-immediately", unjailTx(w, v))
+	w.Step(1)
+	if !w.Block() {
+		return
+	}
+	target := jailTime.Add(cp.JailDur) // the script's own record of the jail expiry
+	for _, d := range []int64{-1, 0, 1} {
+		t := target.Add(time.Duration(d) * time.Second)
+		if !t.After(w.Now) {
+			continue
+		}
+		w.Step(int64(t.Sub(w.Now) / time.Second))
+		w.Force("unjail-around-expiry", unjailTx(w, v))
+		if !w.Block() {
+			return
+		}
+		if x := val(w, v); x != nil && !x.Jailed {
+			break
+		}
+	}
+	delete(w.Reserved, v.AddrHex())
+	w.Run()
+}
+
+// scUnstakeBurnRestake: begin-unstake -> burned below the minimum while unstaking (forced unstake) -> stake again ->
+// begin-unstake again -> time passes the *first* completion time, then the second.
+func scUnstakeBurnRestake(w *sim.World) {
+	v := freeActor(w, 1)
+	if v == nil {
+		w.Run()
+		return
+	}
+	cp := sim.ParamsOf(w.View())
+	w.Reserved[v.AddrHex()] = true
+	defer delete(w.Reserved, v.AddrHex())
+	w.Force("stake", stakeTx(w, v, cp.Min+cp.Min/2))
+	if !w.Block() {
+		return
+	}
+	w.Step(5)
+	w.Force("begin-unstake", unstakeTx(w, v))
+	if !w.Block() {
+		return
+	}
+	// a downstream module burns 100% of it while it is unstaking
+	w.Env.A.Ext.Pending = append(w.Env.A.Ext.Pending, sim.ExtAction{Kind: "burn", Phase: "end", Addr: v.Addr, Severity: "1.0"})
+	w.Step(5)
+	if !w.Block() {
+		return
+	}
+	w.Step(5)
+	if !w.Block() {
+		return
+	}
+	if x := val(w, v); x != nil && x.Status == 0 {
+		w.Force("restake", stakeTx(w, v, cp.Min))
+		w.Step(5)
+		if !w.Block() {
+			return
+		}
+		w.Step(int64(cp.Unstaking/time.Second) / 2)
+		w.Force("begin-unstake-again", unstakeTx(w, v))
+		if !w.Block() {
+			return
+		}
+		// cross the first completion time (stale queue entry) but not the second
+		w.Step(int64(cp.Unstaking/time.Second)/2 + 10)
+		if !w.Block() {
+			return
+		}
+	}
+	delete(w.Reserved, v.AddrHex())
+	w.Run()
+}
+
+// scenarioFor returns a deterministic script for some case indices (coverage guarantees) together with the
+// parameter constraints the script needs, nil otherwise.
+func scenarioFor(prop string, i int, r *sim.Rand) (func(w *sim.World), func(p *sim.Profile)) {
+	switch prop {
+	case "C05", "C06", "C07", "C08", "C09", "C04", "C02":
+		switch i % 8 {
+		case 1:
+			return scJailRestakeUnjail, func(p *sim.Profile) {
+				// the validator must be in Tendermint's set, downtime must be reachable and must burn something
+				p.CustomPos = true
+				if p.Pos.SignedBlocksWindow == 0 {
+					p.Pos = sim.SmallWindowPos(r)
+				}
+				p.Pos.MaxValidators = 100000
+				p.Pos.MinSignedPerWindow = sdk.NewDecWithPrec(5, 1)
+				p.Pos.SlashFractionDowntime = []sdk.Dec{sdk.NewDecWithPrec(1, 2), sdk.NewDecWithPrec(5, 1), sdk.NewDecWithPrec(1, 1)}[i/8%3]
+				p.Pos.DowntimeJailDuration = time.Duration([]int64{60, 120, 600}[i/8%3]) * time.Second
+			}
+		case 3:
+			return scUnstakeBurnRestake, func(p *sim.Profile) {
+				p.CustomPos = true
+				if p.Pos.SignedBlocksWindow == 0 {
+					p.Pos = sim.SmallWindowPos(r)
+				}
+				p.Pos.UnstakingTime = time.Duration([]int64{600, 3600}[i/8%2]) * time.Second
+			}
+		}
+	}
+	return nil, nil
 }
